@@ -63,7 +63,42 @@ def run(tier: str, rep: Report, prefixes=("P12.",), pid=PID):
         sres = pool.map_all("jsonw.shapes_to_file", sargs)
     finally:
         pool.close()
+    # history independence: documents written by one process, loaded by a fresh process first thing and again after it
+    # has encoded / decoded every term (the vast integers included) and a slice of the shapes
+    from common import Worker
+    import json as _json
+
+    cwterms = [t for t in terms if t[1][0] == "atom"] + [t for t in terms if t[1][0] != "atom"][:60]
+
+    def coldwarm(v):
+        pf = str(wd / f"prod-{v}.ndjson")
+        prod = Worker(v)
+        try:
+            prod.req("jsonw.produce", path=pf, terms=cwterms, sources=[{"id": "basic", "src": "x = 1\ny = [lambda: 0, 2.5]\n"}])
+        finally:
+            prod.close()
+        w = Worker(v)
+        try:
+            first = w.req("jsonw.load_outcomes", path_in=pf)
+            w.req("jsonw.terms_to_file", terms=cwterms, path=str(wd / f"cw-terms-{v}.ndjson"))
+            w.req("jsonw.shapes_to_file", shapes=shapes[:60], path=str(wd / f"cw-shapes-{v}.ndjson"))
+            later = w.req("jsonw.load_outcomes", path_in=pf)
+        finally:
+            w.close()
+        f = str(wd / f"coldwarm-{v}.ndjson")
+        with open(f, "w") as fh:
+            fh.write(_json.dumps({"id": "schema", "kind": "schema", "tree": ["o", []]}) + "\n")
+            for (i1, o1), (i2, o2) in zip(first, later):
+                fh.write(_json.dumps({"id": f"cw:{v}:{i1}", "kind": "coldwarm", "first": o1, "later": o2}) + "\n")
+        return f, len(first)
+
+    from concurrent.futures import ThreadPoolExecutor as _TPE
+    with _TPE(max_workers=4) as ex:
+        cw = list(ex.map(coldwarm, SUPPORTED))
+    cwfiles = [f for f, _ in cw]
+    rep.cov["documents_loaded_cold_and_warm"] = sum(n for _, n in cw)
     c07.vt_pass(jfiles)
+    fails += df.validate(rep, cwfiles, "Trace_Json", expect_delta=0)
     rep.cov["json_codec_documents_probed_for_purity"] = sum(sum(x) for x in res.values()) + sum(x[0] for xs in sres.values() for x in xs)
     rep.cov["document_shapes"] = len(shapes)
     fails += df.validate(rep, jfiles, "Trace_Json", expect_delta=0)
